@@ -15,7 +15,8 @@ RULE = (
     "cert_reqs {absent, NONE, OPTIONAL, REQUIRED} x check_hostname {absent, True, False} x trust {none, ca_certs=testCA, "
     "ca_certs=rogueCA, ca_cert_path, custom context trusting testCA, custom unverified context} x server_hostname {absent, "
     "localhost, other.test} x WEBSOCKET_CLIENT_CA_BUNDLE {unset, file, dir, nonexistent; only without user trust options} x "
-    "URL {wss://localhost, wss://127.0.0.1, ws://localhost} x {direct, through a local CONNECT proxy} x server certificate. "
+    "URL {wss://localhost, wss://127.0.0.1, ws://localhost} x {direct, through a local CONNECT proxy} x server certificate; "
+    "plus ssl_version {PROTOCOL_TLS, PROTOCOL_TLSv1_2} x trust x cert_reqs x check_hostname x certificate. "
     "Non-trivial: wss cases in which at least one of the two checks (chain, host name) is active, and configuration errors. "
     "Distinct = the configuration (enumeration without repeats)."
 )
@@ -97,6 +98,8 @@ def run_case(c):
         sslopt["check_hostname"] = c["check_hostname"]
     if c.get("server_hostname"):
         sslopt["server_hostname"] = c["server_hostname"]
+    if c.get("ssl_version"):
+        sslopt["ssl_version"] = getattr(ssl, c["ssl_version"])
     if c.get("env") == "file":
         os.environ["WEBSOCKET_CLIENT_CA_BUNDLE"] = os.path.join(FIX, "testca.pem")
     elif c.get("env") == "dir":
@@ -182,7 +185,7 @@ def run_case(c):
             obs.fail(f"{tag}|sni", f"SNI {rec['sni']!r}, expected {want_sni!r}; cfg={c}")
     active = secure and (exp == "config-error" or not c["trust"] == "ctx-unverified" and not (c.get("cert_reqs") == "NONE"))
     obs.cls = (c["scheme"], "proxy" if c["proxy"] else "direct", f"cert:{c['cert']}", f"trust:{c['trust']}", f"exp:{exp}", f"why:{why}",
-               f"cert_reqs:{c.get('cert_reqs')}", f"check_hostname:{c.get('check_hostname')}", f"server_hostname:{c.get('server_hostname')}", f"env:{c.get('env')}")
+               f"cert_reqs:{c.get('cert_reqs')}", f"check_hostname:{c.get('check_hostname')}", f"server_hostname:{c.get('server_hostname')}", f"env:{c.get('env')}", f"ssl_version:{c.get('ssl_version')}")
     obs.nt = repr(sorted(c.items())) if active else None
     return obs
 
@@ -207,6 +210,19 @@ def configs():
                 for trust in ("ctx-verified", "ctx-unverified"):
                     yield {"scheme": "wss", "host": host, "cert": cert, "proxy": proxy, "trust": trust, "cert_reqs": None, "check_hostname": None,
                            "server_hostname": sh, "env": None}
+
+
+    # the documented ssl_version option must not change what is verified
+    import warnings
+
+    warnings.simplefilter("ignore", DeprecationWarning)
+    for cert in ("good", "other", "rogue"):
+        for ver in ("PROTOCOL_TLS", "PROTOCOL_TLSv1_2"):
+            for trust in ("none", "ca_certs=testca", "ca_certs=rogueca", "ca_cert_path"):
+                for cr in (None, "NONE", "OPTIONAL", "REQUIRED"):
+                    for ch in (None, True, False):
+                        yield {"scheme": "wss", "host": "localhost", "cert": cert, "proxy": False, "trust": trust, "cert_reqs": cr, "check_hostname": ch,
+                               "server_hostname": None, "env": None, "ssl_version": ver}
 
 
 def jobs(tier, seed):
